@@ -748,6 +748,29 @@ func checkC09(c *Ctx, r *Report) {
 		}
 	}
 	r.Floor("C09.R3", n3, 15, "cache functions with lock operations")
+	// ... and never waits for a lock its own goroutine may hold (store -> evict under the key's shard lock):
+	// the client of a good origin answer would hang
+	nSelf := 0
+	selfBad := map[ssa.Instruction]string{}
+	for _, e := range li.Edges {
+		if e.blocking && e.from == e.to {
+			selfBad[e.site] = fmt.Sprintf("blocking acquisition of %s while %s may already be held by the same goroutine", e.to, e.from)
+		}
+	}
+	for i := range li.Ops {
+		op := &li.Ops[i]
+		if originPkgPath(op.fn) != cachePkg || !op.kind.acquire() || !op.kind.blocking() {
+			continue
+		}
+		nSelf++
+		key := fmt.Sprintf("%s: %s %s #%d cannot wait for its own caller", fnKey(op.fn), kindName(op.kind), op.class, ordinalOf(li, op))
+		if why, bad := selfBad[op.in]; bad {
+			r.Fail("C09.R3", key, c.InstrPos(op.in), why+": the request that stores a good origin answer deadlocks on itself")
+		} else {
+			r.Ok("C09.R3", key, c.InstrPos(op.in), "may-held set at the acquisition does not contain the class")
+		}
+	}
+	r.Floor("C09.R3", nSelf, 8, "blocking lock acquisitions in package cache")
 
 	// R4 sibling: empty-body refusal
 	refuses := map[string]bool{}
